@@ -17,6 +17,7 @@
 """This module contains serialization and deserialization of calibration state with Pandas."""
 from __future__ import annotations
 
+import hashlib
 import json
 import pickle  # nosec B403
 from pathlib import Path
@@ -80,6 +81,18 @@ def load_calibrator_state(checkpoint_path: PathLike, _code_state_version: int) -
         msg = (
             f"inconsistent checkpoint in '{checkpoint_path}': {cp['n_sampled_params']} sampled parameters expected, "
             f"found {len(cr)} result rows and {series_samp.shape[0]} series (was the last save interrupted?)"
+        )
+        raise ValueError(msg)
+
+    # same reason: when the digests of the other files were stored (by the save below), they must match
+    files_digest = cp.get("files_digest")
+    if files_digest is not None and files_digest != _files_digest(
+        checkpoint_path,
+        series_samp,
+    ):
+        msg = (
+            f"inconsistent checkpoint in '{checkpoint_path}': the files do not belong to the checkpoint described by "
+            "calibration_params.json (was the last save interrupted?)"
         )
         raise ValueError(msg)
 
@@ -202,10 +215,6 @@ def save_calibrator_state(  # noqa: PLR0913
     }
     if samplers_id_table is not None:
         calibration_params["samplers_id_table"] = dict(samplers_id_table)
-    # save calibration parameters in a json dictionary
-    with (checkpoint_path / "calibration_params.json").open("w") as f:
-        json.dump(calibration_params, f, cls=NumpyArrayEncoder)
-
     # save instantiated scheduler and loss functions
     with (checkpoint_path / "scheduler_pickled.pickle").open("wb") as fb:
         pickle.dump(scheduler, fb)
@@ -246,23 +255,49 @@ def save_calibrator_state(  # noqa: PLR0913
 
             # Write the appended portion
             data[nb_rows:new_num_rows] = to_append
+    else:
+        # If the file does not exist, create it and store the entire dataset in one shot.
+        with h5py.File(series_filepath, mode="w") as series_file:
+            # Create a resizable (maxshape=None along axis 0) dataset
+            data = series_file.create_dataset(
+                name="data",
+                data=series_samp,
+                maxshape=(
+                    None,
+                    *series_samp.shape[1:],
+                ),  # Resizable along the first dimension
+                dtype="float64",
+            )
 
-        return
+    # save calibration parameters in a json dictionary: written last and put in place atomically,
+    # together with the digests of the other files, so that a folder left by an interrupted save
+    # is either still the previous checkpoint or is recognised as inconsistent when loaded
+    calibration_params["files_digest"] = _files_digest(checkpoint_path, series_samp)
+    params_filepath = checkpoint_path / "calibration_params.json"
+    tmp_params_filepath = checkpoint_path / "calibration_params.json.tmp"
+    with tmp_params_filepath.open("w") as f:
+        json.dump(calibration_params, f, cls=NumpyArrayEncoder)
+    tmp_params_filepath.replace(params_filepath)
 
-    # If the file does not exist, create it and store the entire dataset in one shot.
-    with h5py.File(series_filepath, mode="w") as series_file:
-        # Create a resizable (maxshape=None along axis 0) dataset
-        data = series_file.create_dataset(
-            name="data",
-            data=series_samp,
-            maxshape=(
-                None,
-                *series_samp.shape[1:],
-            ),  # Resizable along the first dimension
-            dtype="float64",
+
+def _files_digest(
+    checkpoint_path: Path,
+    series_samp: NDArray[np.float64],
+) -> dict[str, str]:
+    """Compute the digests of the files of a checkpoint other than 'calibration_params.json'."""
+    digest = {
+        name: hashlib.sha256((checkpoint_path / name).read_bytes()).hexdigest()
+        for name in (
+            "scheduler_pickled.pickle",
+            "loss_function_pickled.pickle",
+            "calibration_results.csv",
         )
-
-    return
+    }
+    # the series file is updated in place: its digest is taken on the content
+    digest["series_samp.h5"] = hashlib.sha256(
+        np.ascontiguousarray(series_samp, dtype=np.float64),
+    ).hexdigest()
+    return digest
 
 
 def _is_prefix_of(series_filepath: Path, series_samp: NDArray[np.float64]) -> bool:
